@@ -250,7 +250,8 @@ def run(ctx):
         # ---- g/h byte counts on the reader side
         from ..rules import produced
         np_ = produced.check_produced_size(ck, prog, config, 'C02-g')
-        ck.min_instances('hand-overs of a unit-decompressed buffer', np_, 1)
+        if config != 'no-zstd':       # without the zstd backend no unit-decoding backend exists: nothing to hand over
+            ck.min_instances('hand-overs of a unit-decompressed buffer', np_, 1)
         produced.check_eof_in_chunk(ck, prog, config, 'C02-h')
         # ---- i  only their owners begin, end or finalise the running digests
         extra.check_hash_owners(ck, prog, config, 'C02-i')
